@@ -112,7 +112,15 @@ pub async fn run_suite(suite: &str, seed: u64, cases: usize) -> (String, String)
             "apply" => gen_apply(&mut sim, &mut crng, &mut stats, &name).await,
             "catchup" => gen_catchup(&mut sim, &mut crng, &mut stats, &name).await,
             "kf1" => gen_kf1(&mut sim, &mut crng, &mut stats, &name).await,
-            "conv" => gen_conv(&mut sim, &mut crng, &mut stats, &name).await,
+            "conv" => {
+                gen_conv(&mut sim, &mut crng, &mut stats, &name).await;
+                if case % 6 == 5 {
+                    // an extra scripted case (its generator is forked from this case's, so no other
+                    // case's choices move)
+                    let mut xr = crng.fork();
+                    gen_conv_quarantine_and_setmax(&mut sim, &mut xr, &mut stats, &format!("{name}x")).await;
+                }
+            }
             other => panic!("unknown suite {other}"),
         }
         stats.bump("cases");
@@ -1348,6 +1356,21 @@ pub async fn gen_wire(sim: &mut Sim, rng: &mut Prng, stats: &mut Stats, name: &s
                 sim.decode_expect_ok(&bytes);
                 stats.bump("wire_large_compressed_block");
             }
+            if rng.chance(1, 6) {
+                // a well-formed message LARGER than a datagram (two incompressible 40,000-byte values,
+                // six raw blocks): the codec has no size limit of its own — the datagram budget is the
+                // business of whoever computes a reply
+                let v1 = high_entropy_string(rng, 40_000);
+                let v2 = high_entropy_string(rng, 40_000);
+                let ops = vec![
+                    WOp::Node { id: rand_wid(rng, 0), gc: 0, from: 0 },
+                    WOp::Kv { key: b"v1".to_vec(), value: v1.into_bytes(), version: 1, status: 0 },
+                    WOp::Kv { key: b"v2".to_vec(), value: v2.into_bytes(), version: 2, status: 0 },
+                ];
+                let bytes = ack_bytes(&ops, 16_384, false);
+                sim.decode_expect_ok(&bytes);
+                stats.bump("wire_larger_than_a_datagram");
+            }
             if rng.chance(1, 3) {
                 // every cut inside the header, the message tag and the first length field
                 for n in 0..bytes.len().min(9) {
@@ -1421,6 +1444,27 @@ pub async fn gen_wire(sim: &mut Sim, rng: &mut Prng, stats: &mut Stats, name: &s
             spec.kv_grace_ns = 1_000;
             sim.join(spec);
             sim.deliver(0, &bytes);
+            if rng.chance(1, 4) {
+                // a compressed block that is only a zstd frame header declaring an absurd content size
+                // (2^63 bytes and more): must be refused like any other undecodable block
+                let declared: u64 = *rng.pick(&[1u64 << 63, u64::MAX, (1u64 << 63) + 12345]);
+                let mut frame = vec![0x28u8, 0xb5, 0x2f, 0xfd, 0xe0];
+                frame.extend_from_slice(&declared.to_le_bytes());
+                for tag in [1u8, 2u8] {
+                    let mut h = Vec::new();
+                    put_header(&mut h, tag);
+                    if tag == 1 {
+                        put_digest(&mut h, &[]);
+                    }
+                    h.push(1); // compressed block
+                    h.extend_from_slice(&(frame.len() as u16).to_le_bytes());
+                    h.extend_from_slice(&frame);
+                    h.push(0); // no more blocks
+                    sim.decode(&h);
+                    sim.deliver(0, &h);
+                }
+                stats.bump("wire_absurd_frame_size");
+            }
         }
     }
 }
@@ -1758,6 +1802,20 @@ pub async fn gen_listen(sim: &mut Sim, rng: &mut Prng, stats: &mut Stats, name: 
                 sim.set(n, &format!("{x}{y}"), "v");
                 sim.calls(n);
                 stats.bump("nested_prefixes");
+                // the same prefix subscribed twice, the FIRST handle dropped, a third subscription on
+                // it, then a matching write: the second and the third must both be called
+                if sim.nodes[n].subs.len() + 3 <= 16 {
+                    let p = x.to_string();
+                    let first = next_lid;
+                    sim.subscribe(n, first, &p, false);
+                    sim.subscribe(n, first + 1, &p, false);
+                    sim.drop_listener(n, first);
+                    sim.subscribe(n, first + 2, &p, false);
+                    next_lid += 3;
+                    sim.set(n, &format!("{x}{y}{y}"), "w");
+                    sim.calls(n);
+                    stats.bump("resubscribe_after_drop");
+                }
             }
             95..=97 => {
                 // external catch-up on the peer: the fetched state repeats what n already holds
@@ -2053,6 +2111,61 @@ async fn gen_kf1(sim: &mut Sim, rng: &mut Prng, stats: &mut Stats, name: &str) {
 // reordered messages, partial handshakes, late joins, MTU-forcing values, sometimes liveness
 // evaluation), then writes stop, the clock is frozen and fair rounds of loss-free complete
 // handshakes (every ordered pair once per round) run until the implementation has converged.
+// A dead member D is quarantined at the replica R (dead there for more than half the grace period)
+// but not yet at the owner O (which found it dead later); O's newest version is a tombstone that O
+// alone has collected, and R has already been reset: all R still needs from O is the SetMaxVersion
+// of O's own member — in the same delta in which O, every time, offers D's keys that R discards.
+// Small payloads: nothing is cut by the datagram limit.  A complete handshake R <-> O must advance
+// R's copy of O.
+async fn gen_conv_quarantine_and_setmax(sim: &mut Sim, rng: &mut Prng, stats: &mut Stats, name: &str) {
+    sim.start_case(name);
+    let kv_grace: u64 = 1_000_000;
+    let dead_grace: u64 = 3_906_250_000u64 * 64; // 250 s
+    let mk = |nm: &str, port: u16| {
+        let mut s = NodeSpec::simple(mk_id(nm, 0, port));
+        s.kv_grace_ns = kv_grace;
+        s.dead_grace_ns = dead_grace;
+        s
+    };
+    let o = sim.join(mk("o", 2100));
+    let r = sim.join(mk("r", 2101));
+    let d = sim.join(mk("d", 2102));
+    sim.set(d, "d1", "x");
+    sim.set(d, "d2", "y");
+    sim.set(o, "t1", "x");
+    sim.set(o, "t2", "y");
+    // everybody learns everybody's state; O and R exchange heartbeats one second apart so that they
+    // see each other alive; D says nothing more
+    full_handshake(sim, o, d);
+    full_handshake(sim, r, d);
+    for _ in 0..rng.range(3, 5) {
+        full_handshake(sim, r, o);
+        sim.tick(1_000_000_000).await;
+        sim.heartbeat(o);
+        sim.heartbeat(r);
+    }
+    full_handshake(sim, r, o);
+    sim.eval(r); // D dead at R from now on
+    sim.delete(o, "t2");
+    sim.tick(dead_grace / 2 + 1_000_000_000).await; // D is now quarantined at R; the tombstone is collectable
+    sim.gc(o);
+    sim.eval(o); // D dead at O only from now on: not quarantined there
+    let r_ok = {
+        let cc = &sim.nodes[r].chitchat;
+        let oid = sim.nodes[o].chitchat.self_chitchat_id().clone();
+        let did = sim.nodes[d].chitchat.self_chitchat_id().clone();
+        cc.live_nodes().any(|i| *i == oid) && cc.dead_nodes().any(|i| *i == did)
+    };
+    if !r_ok {
+        stats.bump("conv_quarantine_setmax_not_set_up");
+        return;
+    }
+    stats.bump("conv_cases_quarantine_and_setmax");
+    marked_handshake(sim, r, o); // the reset: R's copy of O goes to (watermark 3, max 1)
+    marked_handshake(sim, r, o); // all that is left is O's SetMaxVersion
+    marked_handshake(sim, o, r);
+}
+
 fn marked_handshake(sim: &mut Sim, a: usize, b: usize) {
     sim.raw_record(&format!("HS {a} {b}"), "ok");
     full_handshake(sim, a, b);
